@@ -348,7 +348,36 @@ def store_predicates(ctx, modules):
                         genv[nm] = ast.literal_eval(defs[0].value)
                     except Exception:
                         pass
-            if names - set(genv):
+            free = names - set(genv)
+            if len(free) == 1 and next(iter(free)) in f.params:
+                # a selector parameterised by the opcode:  [.. for ins in instructions if op in ins['disasm']]  — decided per caller,
+                # for the opcode literals that caller passes (all its calls together are what that caller selects)
+                pname = next(iter(free))
+                pos = f.params.index(pname) - (1 if f.cls is not None and f.params and f.params[0] in ("self", "cls") else 0)
+                fn = ast.FunctionDef(name="_p", args=ast.arguments(posonlyargs=[], args=[ast.arg(arg=var)], kwonlyargs=[], kw_defaults=[], defaults=[]),
+                                     body=[ast.Return(value=expr)], decorator_list=[])
+                per_caller = {}
+                for g in ctx.p.functions.values():
+                    for c in calls_in(g.node, f.name):
+                        if f not in ctx.r.resolve_call(g, c):
+                            continue
+                        a = c.args[pos] if len(c.args) > pos else next((k.value for k in c.keywords if k.arg == pname), None)
+                        if isinstance(a, ast.Constant) and isinstance(a.value, str) and a.value in STORE_VOCAB:
+                            per_caller.setdefault(g.qual, (g, c, set()))[2].add(a.value)
+                for gq, (g, c, passed) in sorted(per_caller.items()):
+                    acc = set()
+                    try:
+                        for lit in passed:
+                            env2 = dict(genv)
+                            env2[pname] = lit
+                            for op in STORE_VOCAB:
+                                if Evaluator(fn, globals_env=env2).call({"disasm": op, "inpt_sk": [], "outpt_sk": [], "id": op + "_0"}):
+                                    acc.add(op)
+                    except (Unsupported, Raised):
+                        continue
+                    yield g, c, acc
+                continue
+            if free:
                 continue
             lits = {x.value for x in ast.walk(expr) if isinstance(x, ast.Constant) and isinstance(x.value, str)}
             for v in genv.values():
